@@ -476,6 +476,8 @@ def _run(case, info):
         return _run_hist(case, info)
     if op == 'drule':
         return _run_drule(case, info)
+    if op == 'nary':
+        return _run_nary(case, info)
     if op == 'set':
         return _run_set(case, info)
     if op == 'scale':
@@ -714,6 +716,76 @@ def judge_drule(case, obs, info, fail):
     return None
 
 
+NARY = {
+    'Vector.from_scalars': lambda cs: Vector.from_scalars(*cs),
+    'Vector3.from_scalars': lambda cs: Vector3.from_scalars(*cs),
+    'Pair.from_scalars': lambda cs: Pair.from_scalars(*cs),
+    'Matrix.from_scalars': lambda cs: Matrix.from_scalars(*cs),
+    'Qube.from_scalars': lambda cs: Qube.from_scalars(*cs),
+    'stack:Scalar': lambda cs: Qube.stack(*cs),
+    'stack:Vector3': lambda cs: Qube.stack(*cs),
+    'stack:Pair': lambda cs: Qube.stack(*cs),
+    'stack:Matrix': lambda cs: Qube.stack(*cs),
+}
+NARY_ARITY = {'Vector3.from_scalars': [3], 'Pair.from_scalars': [2], 'Matrix.from_scalars': [4]}
+
+
+def nary_components(case, units=True):
+    fn = case['fn']
+    comps = []
+    for i, (u, plain) in enumerate(zip(case['us'], case['plain'])):
+        uu = build(u) if units else None
+        if fn.startswith('stack:'):
+            comps.append(make(fn.split(':')[1], case['shape'], uu, scale=1.0 + 0.5 * i))
+        elif plain and u is None:
+            comps.append(1.0 + 0.5 * i)              # a plain Python number: no units
+        else:
+            comps.append(sc(case['shape'], uu, 1.0 + 0.5 * i))
+    return comps
+
+
+def _run_nary(case, info):
+    f = NARY[case['fn']]
+    r = f(nary_components(case))
+    info['r'] = r
+    try:
+        info['r0'] = f(nary_components(case, units=False))
+    except Exception as e:
+        info['r0'] = e
+    if not isinstance(r, Qube):
+        return 'not-a-qube:' + type(r).__name__
+    info['units'].append(('result units', r._units_))
+    o = uobs(r._units_)
+    return 'inexact' if o == 'inexact' else ['units', o]
+
+
+def judge_nary(case, obs, info, fail):
+    exc = info.get('exc')
+    refs = [R.ref_of(u) for u in case['us']]
+    present = [(i, x) for i, x in enumerate(refs) if x is not None]
+    conflict = [(i, j) for a, (i, x) in enumerate(present) for (j, y) in present[a + 1:] if x[0] != y[0]]
+    where = '%s of %d components with units %s' % (case['fn'], len(refs), case['us'])
+    if conflict:
+        if not isinstance(exc, ValueError):
+            i, j = conflict[0]
+            return fail('no-rejection', '%s: components %d and %d have different dimensions, expected ValueError, got %s'
+                        % (where, i, j, C.sx(obs) if exc is None else type(exc).__name__))
+        return None
+    if exc is not None:
+        return fail('raised', '%s raised %s: %s' % (where, type(exc).__name__, exc))
+    r = info['r']
+    if not present:
+        if r._units_ is not None:
+            return fail('wrong-units', '%s: no component has units, the result has %s' % (where, r._units_))
+    elif all(units_match_ref(r._units_, x) for _, x in present):
+        return fail('wrong-units', '%s: the result units %s are those of no component'
+                    % (where, None if r._units_ is None else (r._units_.exponents, r._units_.triple)))
+    r0 = info.get('r0')
+    if isinstance(r0, Qube) and not np.array_equal(np.asarray(r._values_), np.asarray(r0._values_)):
+        return fail('values-depend-on-units', '%s: stored values differ from the same call without units' % where)
+    return None
+
+
 def _values_of(obj):
     return [np.array(obj._values_, copy=True)] + [np.array(d._values_, copy=True) for _, d in sorted(obj._derivs_.items())]
 
@@ -848,6 +920,8 @@ def request(case):
             return ['c12', 'test', case['fn'], w(case.get('a')), w(case.get('b'))]
         if op == 'convert':
             return ['c12', 'convert', w(case['a']), w(case['b'])]
+        if op == 'nary':
+            return ['c12', 'nary', 'stack' if case['fn'].startswith('stack:') else 'from_scalars', [w(u) for u in case['us']]]
         if op == 'drule':
             if irrational_expected(case):
                 return None
@@ -909,6 +983,8 @@ def kind_of(case):
         return 'hist:%s:%s:%s' % (case['change'], case['target'], case['cls'])
     if op == 'drule':
         return 'drule:%s:%s' % (case['oname'], case['cls'])
+    if op == 'nary':
+        return 'nary:%s:%d' % (case['fn'], len(case['us']))
     if op == 'set':
         return 'set:%s:%s' % (case['how'], case['cls'])
     if op == 'scale':
@@ -1149,6 +1225,8 @@ def judge(case, obs, info):
         return judge_rule(case, obs, info, fail)
     if op == 'drule':
         return judge_drule(case, obs, info, fail)
+    if op == 'nary':
+        return judge_nary(case, obs, info, fail)
     if op == 'hist':
         # the object reached by the history must carry exactly the units the history gave it ...
         if 'target_units' in info:
